@@ -34,20 +34,20 @@ ASSUMPTIONS = ['engines: heads/pressures within 0.01 m + 3e-4 of the head (the e
                'units and reader monitors compare EPANET with EPANET: heads/pressures 5e-3 m + 3e-4 of the head, flows 3e-4 relative + 3e-3 of the largest flow: EPANET itself converts flow units with 4-5 digit constants (IMGDperCFS 0.5382, AFDperCFS 1.9837 ...), which limits its own unit independence to ~1e-4 in flows and a few mm in tank levels',
                'EPANET warnings (unbalanced, negative pressures, disconnected) and non-converged WNTR runs make a case inconclusive',
                'trusted: libepanet 2.2 shipped in the repository; the reference unit factors of vlib/props/c17 for the INP emitter']
-FLOORS = {'quick': {'conclusive': 60, 'distinct_nontrivial': 40,
-                    'counters': {'engine_cases': 30, 'engine_steps_compared': 250, 'engine_values_compared': 15000, 'status_points_compared': 3000,
-                                 'units_cases': 15, 'unit_runs': 150, 'unit_values_compared': 20000, 'reader_cases': 15,
-                                 'reader_values_compared': 5000, 'pdd_cases': 8, 'controls_cases': 20}},
-          'thorough': {'conclusive': 700, 'distinct_nontrivial': 400,
-                       'counters': {'engine_cases': 350, 'engine_steps_compared': 3500, 'engine_values_compared': 200000,
-                                    'status_points_compared': 40000, 'units_cases': 180, 'unit_runs': 1800, 'unit_values_compared': 250000,
-                                    'reader_cases': 180, 'reader_values_compared': 60000, 'pdd_cases': 100, 'controls_cases': 250}}}
+FLOORS = {'quick': {'conclusive': 100, 'distinct_nontrivial': 60,
+                    'counters': {'engine_cases': 60, 'engine_steps_compared': 150, 'engine_values_compared': 5000, 'status_points_compared': 1500,
+                                 'units_cases': 30, 'unit_runs': 150, 'unit_values_compared': 20000, 'reader_cases': 30,
+                                 'reader_values_compared': 50000, 'pdd_cases': 6, 'controls_cases': 20}},
+          'thorough': {'conclusive': 1200, 'distinct_nontrivial': 700,
+                       'counters': {'engine_cases': 800, 'engine_steps_compared': 2000, 'engine_values_compared': 70000,
+                                    'status_points_compared': 20000, 'units_cases': 400, 'unit_runs': 2000, 'unit_values_compared': 250000,
+                                    'reader_cases': 400, 'reader_values_compared': 600000, 'pdd_cases': 80, 'controls_cases': 250}}}
 CASE_TIMEOUT = {'quick': 400, 'thorough': 900}
 EXAMPLES = ['Net1.inp', 'Net2.inp', 'Net3.inp']
 
 
 def n_cases(tier):
-    return 120 if tier == 'quick' else 1400
+    return 240 if tier == 'quick' else 3200
 
 
 def common_spec(rng, tier, controls=True):
@@ -61,7 +61,7 @@ def common_spec(rng, tier, controls=True):
             cv['points'] = [[q, h]]
     for t in spec['tanks']:
         if t['diameter'] < 25.0:      # a tank that fills in minutes makes the 1 s granularity of WNTR's partial steps visible
-            new_d = rng.choice([25.0, 30.0, 40.0])
+            new_d = rng.choice([30.0, 40.0, 50.0])
             if t['vol_curve']:
                 f = (new_d / t['diameter']) ** 2
                 for pt in spec['curves'][t['vol_curve']]['points']:
@@ -78,7 +78,35 @@ def common_spec(rng, tier, controls=True):
         o['pressure_exponent'] = 0.5
     o['extra_hydraulic'] = {'accuracy': 1e-6, 'trials': 200}
     if controls and rng.random() < 0.7:
-        ctrlgen.add_random_controls(spec, rng, n=(1, 4), kinds=('time', 'time', 'clock', 'tank', 'tank', 'tank', 'pressure', 'rule_time', 'rule_tank', 'rule_time'), offgrid=0.3)
+        ctrlgen.add_random_controls(spec, rng, n=(1, 4), kinds=('time', 'time', 'clock', 'tank', 'tank', 'tank', 'pressure', 'rule_time', 'rule_tank', 'rule_time', 'setting', 'setting'), offgrid=0.3)
+    # closing a bridge cuts junctions off from every source: EPANET then reports 'disconnected' heads of -1e6 while WNTR zeroes
+    # them (not a common feature).  Closed pipes and control targets are therefore taken from links that lie on a loop.
+    import networkx as nx
+    G = nx.MultiGraph()
+    for l in spec['pipes'] + spec['pumps'] + spec['valves']:
+        G.add_edge(l['start'], l['end'], key=l['name'])
+    bridges = set()
+    simple = nx.Graph(G)
+    for a_, b_ in nx.bridges(simple):
+        if G.number_of_edges(a_, b_) == 1:
+            bridges.add(list(G[a_][b_].keys())[0])
+    loop_links = [l['name'] for l in spec['pipes'] if l['name'] not in bridges]
+    for p in spec['pipes']:
+        if p['status'] == 'CLOSED' and p['name'] in bridges:
+            p['status'] = 'OPEN'
+    kept = []
+    for cs in spec['controls']:
+        acts = cs['then'] + cs.get('else', []) if cs['kind'] == 'rule' else [cs]
+        ok = True
+        for a_ in acts:
+            if a_.get('attr', 'status') == 'status' and a_['target'] in bridges:
+                if loop_links:
+                    a_['target'] = rng.choice(loop_links)
+                else:
+                    ok = False
+        if ok:
+            kept.append(cs)
+    spec['controls'] = kept
     # one control source per target: two controls that hold at the same time and command different states of one link are
     # resolved by evaluation order, which is not a common feature of the engines
     owner, keep = {}, []
@@ -117,7 +145,7 @@ def epanet_clean(tr):
     if any(k in w for k in ('unbalanced', 'negative pressure', 'disconnected', 'cannot', 'error')):
         return False
     try:
-        if float(tr.results.node['pressure'].min().min()) < -1e4:
+        if float(tr.results.node['pressure'].min().min()) < -1.0:      # EPANET warns about negative pressures: its heads are then not a reference
             return False
     except Exception:
         return False
@@ -135,6 +163,17 @@ def run_case(c, rng):
     if mode == 'units':
         return run_units(c, rng)
     return run_reader(c, rng)
+
+
+def valve_forced_open(spec, rw, re_, v, k):
+    """WNTR reports control valve v Open at step k although its own setting is exceeded, EPANET keeps it active/closed."""
+    sw, se = int(rw.link['status'][v['name']].values[k]), int(re_.link['status'][v['name']].values[k])
+    if not (sw == 1 and se in (0, 2)):
+        return False
+    qv = float(rw.link['flowrate'][v['name']].values[k])
+    return (v['type'] == 'FCV' and qv > v['setting'] + 1e-5) or \
+           (v['type'] == 'PRV' and float(rw.node['pressure'][v['end']].values[k]) > v['setting'] + 0.01) or \
+           (v['type'] == 'PSV' and float(rw.node['pressure'][v['start']].values[k]) < v['setting'] - 0.01)
 
 
 def run_engines(c, rng):
@@ -186,6 +225,7 @@ def run_engines(c, rng):
     qmax = max(1e-4, float(rw.link['flowrate'].abs().max().max()))
     res_names = set(r['name'] for r in spec['reservoirs'])
     junc_names = set(j['name'] for j in spec['junctions'])
+    incident = {n: [l_['name'] for l_ in spec['pipes'] + spec['pumps'] + spec['valves'] if n in (l_['start'], l_['end'])] for n in junc_names}
     topo = ref.Topo(wn)
     mismatch = {ln: [] for ln in links}
     limit_step = None
@@ -271,6 +311,8 @@ def run_engines(c, rng):
                 commanded_closed = cs['value'] == 'CLOSED'
                 if not holds and link_closed(rw, ln, k0) == commanded_closed and link_closed(re_, ln, k0) != commanded_closed:
                     kind = 'status_diverges_pressure_control_fired_on_trial_solution'
+        if o['demand_model'] == 'PDD' and any(v['name'] == ln and valve_forced_open(spec, rw, re_, v, k0) for v in spec['valves']):
+            kind = 'engines_differ_valve_forced_open_without_source_pdd'
         c.violate(kind, 'link %s: WNTR and EPANET report different open/closed states at report steps %s (t = %s s): WNTR %s, EPANET %s' % (
             ln, r_[:6], [times[k] for k in r_[:6]], [int(rw.link['status'][ln].values[k]) for k in r_[:6]],
             [int(re_.link['status'][ln].values[k]) for k in r_[:6]]), **wit)
@@ -311,6 +353,9 @@ def run_engines(c, rng):
             for n in nodes:
                 if n in junc_names and n not in conn:
                     continue      # cut off from every source: WNTR zeroes such junctions, EPANET extrapolates a head (not a common feature)
+                if n in junc_names and all(abs(float(rw.link['flowrate'][ln_].values[i])) <= 1e-6 and abs(float(re_.link['flowrate'][ln_].values[i])) <= 1e-6
+                                           for ln_ in incident[n]):
+                    continue      # no flow in any link of the junction in either engine: its head floats (between a closed valve and a closed check valve, say)
                 if key == 'pressure' and n in res_names:
                     continue      # a reservoir has no pressure (EPANET reports head - base head, WNTR 0)
                 a, b = float(rw.node[key][n].values[i]), float(re_.node[key][n].values[i])
@@ -331,7 +376,7 @@ def run_engines(c, rng):
             d = abs(a - b)
             lim = 1e-5 + 1e-3 * qmax + flow_slack
             if max(abs(a), abs(b)) < 4e-4:
-                lim = max(lim, 1e-4)      # inside WNTR's documented low-flow smoothing range of the Hazen-Williams law (|q| < 4e-4 m3/s)
+                lim = max(lim, 2e-4)      # inside WNTR's documented low-flow smoothing range of the Hazen-Williams law (|q| < 4e-4 m3/s)
             if d > lim and (worst is None or d / lim > worst[0]):
                 worst = (d / lim, 'flowrate', ln, t, a, b)
     if worst is not None:
@@ -352,14 +397,8 @@ def run_engines(c, rng):
         iw = times.index(worst[3])
         for v in spec['valves']:
             for k in range(iw + 1):
-                sw, se = int(rw.link['status'][v['name']].values[k]), int(re_.link['status'][v['name']].values[k])
-                if sw == 1 and se == 2:
-                    qv = float(rw.link['flowrate'][v['name']].values[k])
-                    beyond = (v['type'] == 'FCV' and qv > v['setting'] + 1e-5) or \
-                             (v['type'] == 'PRV' and float(rw.node['pressure'][v['end']].values[k]) > v['setting'] + 0.01) or \
-                             (v['type'] == 'PSV' and float(rw.node['pressure'][v['start']].values[k]) < v['setting'] - 0.01)
-                    if beyond and o['demand_model'] == 'PDD':
-                        kind = 'engines_differ_valve_forced_open_without_source_pdd'
+                if o['demand_model'] == 'PDD' and valve_forced_open(spec, rw, re_, v, k):
+                    kind = 'engines_differ_valve_forced_open_without_source_pdd'
         c.violate(kind, '%s of %s at t = %s s: WNTR %.6g, EPANET %.6g (%.1f x the tolerance)' % (worst[1], worst[2], worst[3], worst[4], worst[5], worst[0]),
                   quantity=worst[1], element=worst[2], **wit)
     c.nontrivial = bool(spec['tanks'] or spec['pumps'] or spec['valves']) and len(times) >= 4
@@ -370,6 +409,10 @@ def compare_results(c, label, ra, rb, counter, wit, rel=3e-4, ab=1e-6, starved=N
     """EPANET vs EPANET: tight."""
     ta, tb = [int(t) for t in ra.node['head'].index], [int(t) for t in rb.node['head'].index]
     if ta != tb:
+        if ta == tb[:len(ta)] or tb == ta[:len(tb)]:
+            # EPANET halted one of the runs (UNBALANCED STOP): a convergence failure of the trusted engine, not a verdict
+            c.inconclusive('epanet_halted_unbalanced')
+            return False
         c.violate('report_times_differ', '%s: report times %s vs %s' % (label, ta[:10], tb[:10]), **wit)
         return False
     worst = None
